@@ -448,9 +448,31 @@ def r3(ctx: Ctx) -> None:
            "defence in depth: callers (GC) must not act on an untrustworthy listing (#45)")
 
 
+LEXICAL_NORMALISERS = {"os.path.normpath", "posixpath.normpath", "ntpath.normpath", "os.path.abspath", "posixpath.abspath"}
+
+
+def no_lexical_normalisation(ctx: Ctx, rid: str = "C17.R4") -> None:
+    ctx.rule(rid, "paths reach the resolver as given: no function of the package collapses '..' lexically (normpath / abspath) - "
+             "the resolver's realpath + boundary check is the only place a path is interpreted; a normalised '../x' clamped at a "
+             "virtual root silently names another existing file instead of being rejected", 0)
+    n = 0
+    for f in sorted(ctx.prog.functions.values(), key=lambda x: x.qname):
+        if isinstance(f.node, ast.Lambda):
+            continue
+        g = ctx.cfg(f)
+        for c in g.calls():
+            if c.id in g.reachable() and c.callee is not None and c.callee.kind == "prim" and c.callee.name in LEXICAL_NORMALISERS:
+                n += 1
+                ctx.ob(rid, f, "lexical path normalisation", c, False,
+                       f"`{c.text[:70]}`: '..' segments are folded away before the boundary check can see them (and symlinks are not "
+                       "resolved): an escaping path is accepted as some in-root file, or two spellings of one table diverge")
+    ctx.ob(rid, None, "lexical normalisers censused", None, True, f"{n} call(s) of {sorted(LEXICAL_NORMALISERS)}", nontrivial=False)
+
+
 def check(ctx: Ctx) -> None:
     r1(ctx)
     r2(ctx)
     r3(ctx)
+    no_lexical_normalisation(ctx)
     from .c05 import r2 as c05_r2
     # PATHPREFIX (shared generic rule) is reported under C05.R2; C17 relies on R2's commonpath shape instead
